@@ -201,6 +201,7 @@ class Report:
                 "per_rule": per_rule,
                 "counts": self.counts,
                 "known_findings_matched": sorted(self.known_hit),
+                "library_functions_inspected": getattr(self, "functions_inspected", []),
                 "exhaustive": False,
             },
             "assumptions": self.assumptions,
